@@ -192,7 +192,7 @@ impl Check for C04Check {
             Phase::random("random-deep-expressions", tier.pick(100_000, 3_000_000), 96).with_min_tape(16).with_chunk(2048),
             Phase::exhaustive("statement-blocks", block_string_count(tier.pick(7, 8))).with_chunk(16384),
             Phase::exhaustive("control-flow-skeletons", crate::model::astgen::CONTROL.count_up_to(tier.pick(8, 9))).with_chunk(4096),
-            Phase::exhaustive("repetition", repetition_programs().len() as u64).with_chunk(16),
+            Phase::exhaustive("repetition", repetition_corpus().len() as u64).with_chunk(16),
         ]
     }
     fn run(&self, tier: Tier, phase: usize, input: &Input, ctx: &mut CaseCtx) {
@@ -231,7 +231,7 @@ impl Check for C04Check {
                 Some(s) => judge(&s, ctx),
                 None => ctx.class("not-printable"),
             },
-            (7, Input::Index(i)) => judge(&repetition_programs()[*i as usize], ctx),
+            (7, Input::Index(i)) => judge(&repetition_corpus()[*i as usize], ctx),
             (_, Input::Text(s)) => judge(s, ctx),
             _ => {}
         }
